@@ -7,6 +7,7 @@ package main
 import (
 	"go/ast"
 	"go/token"
+	"sort"
 	"strconv"
 	"strings"
 )
@@ -117,6 +118,45 @@ func init() {
 		sp.boolSite("smtp_reply_redact", "(active : bool) (code : N)", "Client.cmd", func(l []*ast.IfStmt) *ast.IfStmt {
 			return cmdIfs(l, "code")
 		}, map[string]string{"c.authIsActive": "active", "code": "code"}, "false")
+
+		// 2b. the methods (and functions) of package smtp that assign authIsActive: the redaction flag is owned by Auth
+		{
+			var writers []string
+			for name, f := range sp.funcs {
+				if f.Body == nil {
+					continue
+				}
+				w := false
+				ast.Inspect(f.Body, func(x ast.Node) bool {
+					switch t := x.(type) {
+					case *ast.AssignStmt:
+						for _, l := range t.Lhs {
+							if strings.HasSuffix(sp.src(l), ".authIsActive") {
+								w = true
+							}
+						}
+					case *ast.IncDecStmt:
+						if strings.HasSuffix(sp.src(t.X), ".authIsActive") {
+							w = true
+						}
+					case *ast.UnaryExpr:
+						if t.Op == token.AND && strings.HasSuffix(sp.src(t.X), ".authIsActive") {
+							w = true
+						}
+					}
+					return true
+				})
+				if w {
+					writers = append(writers, name)
+				}
+			}
+			sort.Strings(writers)
+			items := make([]string, len(writers))
+			for i, wn := range writers {
+				items[i] = coqBytes(wn)
+			}
+			emit("(* functions of package smtp that assign (or take the address of) the field authIsActive: %s *)\nDefinition smtp_authIsActive_writers : list (list N) := [%s].\n", strings.Join(writers, ", "), strings.Join(items, "; "))
+		}
 
 		// 3. the reply codes Auth dispatches on
 		chal, succ, more := int64(0), int64(0), int64(0)
@@ -284,6 +324,25 @@ func init() {
 			})
 		}
 		emitBool("scram_error_returns_constructed", errsOK, "handleServerFirstResponse / handleServerValidationMessage: every return nil, e has e = a call (errors.New, fmt.Errorf)")
+
+		// the AuthMessage is assembled from the server-first-message AS RECEIVED (fromServer), not from re-joined parts
+		rawAM := false
+		if fn, ok := sp.funcs["scramAuth.handleServerFirstResponse"]; ok && fn.Body != nil {
+			n := 0
+			ast.Inspect(fn.Body, func(x ast.Node) bool {
+				if as, ok := x.(*ast.AssignStmt); ok && len(as.Lhs) == 1 && len(as.Rhs) == 1 && sp.src(as.Lhs[0]) == "a.authMessage" {
+					n++
+					if sp.src(as.Rhs[0]) == `[]byte(string(a.firstBareMsg) + "," + string(fromServer) + "," + string(msgWithoutProof))` {
+						rawAM = true
+					}
+				}
+				return true
+			})
+			if n != 1 {
+				rawAM = false
+			}
+		}
+		emitBool("scram_authmsg_uses_raw_server_first", rawAM, "handleServerFirstResponse: a.authMessage = firstBareMsg , fromServer , msgWithoutProof with fromServer the message as received")
 
 		finalReq := false
 		if fn, ok := sp.funcs["scramAuth.handleServerValidationMessage"]; ok && fn.Body != nil && len(fn.Body.List) > 0 {
